@@ -3,6 +3,7 @@ package main
 import (
 	"fmt"
 	"go/types"
+	"regexp"
 	"sort"
 	"strings"
 
@@ -271,7 +272,9 @@ func (e *Engine) callFunction(s *State, x ssa.CallInstruction, fn *ssa.Function,
 		return nil, true
 	}
 	e.assumed["unmodelled external "+e.shortFunc(fn)+": result havocked, no heap effect assumed"] = true
-	e.bindResult(s, x, e.havocResult(s, x, fn.Name()))
+	res := e.havocResult(s, x, fn.Name())
+	e.bindResult(s, x, res)
+	e.recordCall(s, fn, args, res)
 	return nil, true
 }
 
@@ -414,14 +417,9 @@ func (e *Engine) appendOp(s *State, x ssa.CallInstruction, args []Value) {
 			e.store(s, Place{Prefix: elemKey, Addr: []*Term{r, Add(a[2], Int(i))}}, st.Elem(), v)
 		}
 	} else {
-		// symbolic number of appended elements: second copy source
-		// result elements beyond oldlen are read through a UF summarising the source slice
-		for _, sl := range e.layout(st.Elem()) {
-			_ = sl
-		}
-		s.notes = append(s.notes, "append of a slice of symbolic length: appended elements are unconstrained")
-		e.assumed["append(s, t...) with symbolic len(t): appended elements unconstrained"] = true
-		s.havocFamily(slotFamily(elemKey), e.nextVer())
+		// symbolic number of appended elements: second read-through segment
+		cp := s.copies[r.I]
+		cp.arr2, cp.off2, cp.len2 = b[0], b[1], b[2]
 	}
 	if newlen.K != KInt {
 		// lengths stay within int range (allocation would fail otherwise)
@@ -526,3 +524,19 @@ func (e *Engine) afterMapLoad(s *State, mt *types.Map, m *Term, k, v Value, has 
 func typeMentions(t types.Type, name string) bool {
 	return strings.Contains(types.TypeString(t, nil), name)
 }
+
+
+// recordCall appends a ghost call event (callee, flattened arguments, flattened results) to the trace.
+func (e *Engine) recordCall(s *State, fn *ssa.Function, args []Value, res Value) {
+	var flat []*Term
+	for _, a := range args {
+		flat = append(flat, a...)
+	}
+	s.trace = append(s.trace, Event{Kind: "call", Note: shortPaths(e.shortFunc(fn)), Args: flat, Res: append([]*Term(nil), res...), Pre: e.pendingPre})
+	e.pendingPre = nil
+}
+
+var rePathPrefix = regexp.MustCompile(`([A-Za-z0-9_.\-]+/)+`)
+
+// shortPaths drops import-path prefixes: "(*github.com/spf13/cobra.Command).Execute" -> "(*cobra.Command).Execute".
+func shortPaths(s string) string { return rePathPrefix.ReplaceAllString(s, "") }
